@@ -1308,8 +1308,14 @@ def py_format(ev, spec_template, args, node, fr):
     vals = []
     for a in args:
         if isinstance(a, Num) and a.expr.is_number:
-            if a.expr.is_Integer:
+            if a.expr == 0 and a.tag == "negzero":
+                import decimal
+                vals.append(decimal.Decimal("-0"))
+            elif a.expr.is_Integer and not a.isfloat:
                 vals.append(int(a.expr))
+            elif a.expr.is_Integer:
+                import decimal
+                vals.append(decimal.Decimal(int(a.expr)))     # a float holding a whole number formats like a float
             else:
                 d = to_decimal(a.expr)
                 if d is None:
@@ -1389,6 +1395,8 @@ def num_method(ev, x: Num, name, args, kwargs, fr, node):
         dimension_check(ev, x.expr, u_, f".to({u_})", node)
         return x.like(x.expr, unit=u_, kind="quantity" if x.kind != "time" else "time", cls=x.cls)
     if name == "to_value":
+        if args and isinstance(args[0], NoneV):
+            args = args[1:] if False else []        # to_value(None): the value in the unit the Quantity is held in
         u_ = unit_of(ev, args[0], node) if args else (x.unit if x.unit is not None else None)
         if u_ is None:
             return num_getattr(ev, x, "value", fr, node)
@@ -1456,6 +1464,11 @@ def num_method(ev, x: Num, name, args, kwargs, fr, node):
             ev.unsupported("ravel/flatten with a computed order", node, fr)
         size = sp.Mul(*x.shape) if x.shape else sp.Integer(1)
         return Num(F["Ravel"](x.expr, sp.Symbol("order_" + o.s)), kind=x.kind, shape=(size,), tag="elemarr", dtype=x.dtype)
+    if name == "squeeze" and x.tag == "elemarr" and x.shape is not None and (args or "axis" in kwargs):
+        ax = ev.concrete_int(kwargs.get("axis", args[0] if args else None))
+        if ax is not None:
+            shp = [d_ for i, d_ in enumerate(x.shape) if i != ax % len(x.shape)]
+            return Num(F["Squeeze"](x.expr, sp.Integer(ax % len(x.shape))), kind="array", shape=shp, tag=x.tag, dtype=x.dtype, backend=x.backend)
     if name in ("ravel", "flatten", "squeeze", "view", "item", "tolist"):
         return x
     if name == "isclose":
@@ -2080,10 +2093,13 @@ def h_float(ev, args, kwargs, fr, node):
         return x.like(x.expr, isfloat=True, unit=x.unit)
     if isinstance(x, StrV):
         try:
-            return Num(token_number(x.s), isfloat=True)
+            v = token_number(x.s)
         except Exception:
             from .symeval import Raised
             raise Raised("ValueError", node, f"could not convert string to float: {x.s!r}")
+        if v == 0 and x.s.strip().startswith("-"):
+            return Num(0, isfloat=True, tag="negzero")      # float("-0") is the negative zero: it prints with its sign
+        return Num(v, isfloat=True)
     ev.unsupported(f"float({x!r})", node, fr)
 
 
@@ -2472,6 +2488,43 @@ def h_two_product(ev, args, kwargs, fr, node):
         hi = sp.Function("TwoProdHi")(a.expr, b.expr)
         return TupleV([Num(hi, isfloat=True, shape=a.shape or b.shape), Num(a.expr * b.expr - hi, isfloat=True, shape=a.shape or b.shape)])
     ev.unsupported("two_product of these operands", node, fr)
+
+
+def h_builtin_format(ev, args, kwargs, fr, node):
+    v = args[0]
+    spec = args[1] if len(args) > 1 else StrV("")
+    if not isinstance(spec, StrV):
+        ev.unsupported("format() with a computed format specification", node, fr)
+    if isinstance(v, ObjV):
+        m = v.cls.find_method("__format__")
+        if m is not None:
+            return ev.call(m, [spec], {}, self_val=v, depth=fr.depth + 1)
+    if isinstance(v, (Num, StrV)):
+        if isinstance(v, Num) and not v.expr.is_number:
+            ev.unsupported("format() of a symbolic number", node, fr)
+        return py_format(ev, "{:" + spec.s + "}", [v], node, fr)
+    ev.unsupported(f"format({v!r})", node, fr)
+
+
+def h_expand_dims(ev, args, kwargs, fr, node):
+    x = args[0]
+    axis = kwargs.get("axis", args[1] if len(args) > 1 else None)
+    ax = ev.concrete_int(axis) if isinstance(axis, Num) else None
+    if not isinstance(x, Num) or ax is None:
+        ev.unsupported("np.expand_dims of these operands", node, fr)
+    shp = list(x.shape) if x.shape is not None else []
+    pos = ax if ax >= 0 else len(shp) + 1 + ax
+    shp.insert(pos, sp.Integer(1))
+    return Num(F["ExpandDims"](x.expr, sp.Integer(pos)), kind="array", shape=shp, tag=x.tag, dtype=x.dtype, backend=x.backend)
+
+
+def h_take_along_axis(ev, args, kwargs, fr, node):
+    x, idx = args[0], args[1]
+    axis = kwargs.get("axis", args[2] if len(args) > 2 else None)
+    ax = ev.concrete_int(axis) if isinstance(axis, Num) else None
+    if not isinstance(x, Num) or not isinstance(idx, Num) or ax is None or x.shape is None:
+        ev.unsupported("np.take_along_axis of these operands", node, fr)
+    return Num(F["TakeAlong"](x.expr, idx.expr, sp.Integer(ax % len(x.shape))), kind="array", shape=idx.shape, tag=x.tag, dtype=x.dtype, backend=x.backend)
 
 
 def h_roll(ev, args, kwargs, fr, node):
@@ -3307,6 +3360,8 @@ EXT = {
     "astropy.time.utils.two_product": lambda ev, a, k, fr, n: h_two_product(ev, a, k, fr, n),
     "numpy.nonzero": lambda ev, a, k, fr, n: h_nonzero(ev, a, k, fr, n), "numpy.flatnonzero": lambda ev, a, k, fr, n: h_nonzero(ev, a, k, fr, n, flat=True),
     "numpy.roll": lambda ev, a, k, fr, n: h_roll(ev, a, k, fr, n),
+    "numpy.expand_dims": lambda ev, a, k, fr, n: h_expand_dims(ev, a, k, fr, n), "numpy.take_along_axis": lambda ev, a, k, fr, n: h_take_along_axis(ev, a, k, fr, n),
+    "builtins.format": lambda ev, a, k, fr, n: h_builtin_format(ev, a, k, fr, n),
     "numpy.full": lambda ev, a, k, fr, n: h_full(ev, a, k, fr, n), "numpy.tensordot": lambda ev, a, k, fr, n: h_tensordot(ev, a, k, fr, n),
     "numpy.shape": lambda ev, a, k, fr, n: h_np_shape(ev, a, k, fr, n), "numpy.broadcast_shapes": lambda ev, a, k, fr, n: h_broadcast_shapes(ev, a, k, fr, n),
     "numpy.unravel_index": lambda ev, a, k, fr, n: h_unravel_index(ev, a, k, fr, n),
